@@ -43,3 +43,9 @@ mod tracker {
     use super::common::*;
     include!(concat!(env!("MRECORDLOG_VERIF_HARNESS_DIR"), "/tracker.rs"));
 }
+
+#[allow(dead_code, unused_imports, unused_variables, unused_mut, unused_assignments, clippy::all)]
+mod queues_h {
+    use super::common::*;
+    include!(concat!(env!("MRECORDLOG_VERIF_HARNESS_DIR"), "/queues.rs"));
+}
